@@ -39,3 +39,11 @@ Print Assumptions C12_reconnect_probe.
 Example C12_example :
   sends (life 5 2 false [(10, false); (12, false); (15, false); (20, false); (25, false); (30, false)]%Z 0 0%Z) = [10; 15; 20]%Z.
 Proof. vm_compute. reflexivity. Qed.
+
+(* loss accounting of an abandoned request, per status-server mode: on/minimal - only unanswered probes count;
+   auto - a lost probe counts nothing; off (and ordinary requests under auto) - every abandoned request counts;
+   the count saturates at MAX_LOSTRQS *)
+Theorem C12_lost_accounting : forall sv isprobe,
+  s_lostrqs (abandon_server sv isprobe) = lost_after (s_statsrv sv) (s_lostrqs sv) isprobe.
+Proof. exact abandon_lost. Qed.
+Print Assumptions C12_lost_accounting.
